@@ -81,7 +81,7 @@ def expect_hist(ctx, which, n_random, small_len, oracle_extra):
             hits += 1
             ctx.hit(verdict[0], verdict[1], {'case': case, 'observed': [{k: repr(v) for k, v in o.items()} for o in obs]})
         if to_model:
-            cases.append((H.coq_case(case), H.expected_V(case, obs), case))
+            cases.append((H.coq_case(case, exp), H.expected_V(case, obs, exp), case))
 
     corpus = os.path.join(common.VERIF, 'corpus', 'expect')
     if os.path.isdir(corpus):
@@ -133,6 +133,7 @@ def run_property(ctx, which, props_file):
         wrapper_oracle(ctx, which, 30000 if thorough else 4000)
     if which == 'C01':
         unicode_pipe_oracle(ctx, 400 if thorough else 40)
+        real_transport_conservation(ctx, (0, 100, 6000, 70000) if thorough else (100, 6000), (2000, 64, 1, 100000) if thorough else (2000, 64))
 
 
 def replay(ctx, path, which):
@@ -362,3 +363,80 @@ def unicode_pipe_oracle(ctx, n):
             ctx.hit('C01/unicode-pipe', 'child wrote %r in pieces %r; the expect calls handed back %r' % (text, pieces, handed), {'pieces': [list(p) for p in pieces]})
             return
     ctx.oracle_stats['unicode_pipe_streams'] = tried
+
+
+def real_transport_conservation(ctx, sizes, maxreads):
+    """C01 end to end, on the four real transports: the peer writes n bytes (n above and below maxread, the pieces larger and
+    smaller than a read), the caller makes expect_exact calls for a marker that recurs in the data and finally expect(EOF);
+    every before+after handed back, in order, followed by the last before, must be exactly what the peer wrote"""
+    import socket
+    import sys
+    import threading
+    from pexpect import fdpexpect, popen_spawn, socket_pexpect
+    pexpect = common.preflight()
+    unit = b"0123456789abcdefghijklmnopqrstuvwxyzABCDEFGHIJKLMNOPQRSTUVWXYZ-_"
+    gen = r"""
+import sys, os, time
+n = int(sys.argv[1]); k = int(sys.argv[2])
+data = (b"0123456789abcdefghijklmnopqrstuvwxyzABCDEFGHIJKLMNOPQRSTUVWXYZ-_" * (n // 64 + 1))[:n]
+i = 0
+while i < n:
+    os.write(1, data[i:i+k]); i += k
+"""
+    tried = 0
+    for n in sizes:
+        want = (unit * (n // 64 + 1))[:n]
+        for maxread in maxreads:
+            for transport in ('popen', 'fd', 'pty', 'socket'):
+                k = ctx.rng.choice([7, 997, 4096, 70000])
+                calls = ctx.rng.randint(0, 4)
+                wait_first = ctx.rng.random() < 0.5          # let the output pile up before the first call
+                th = None
+                try:
+                    if transport == 'pty':
+                        c = pexpect.spawn(sys.executable, ['-c', 'import tty,sys; tty.setraw(1)\n' + gen, str(n), str(k)], maxread=maxread, timeout=60)
+                    elif transport == 'popen':
+                        c = popen_spawn.PopenSpawn([sys.executable, '-c', gen, str(n), str(k)], maxread=maxread, timeout=60)
+                    elif transport == 'fd':
+                        r, w = os.pipe()
+
+                        def feed(w=w, want=want, k=k):
+                            for i in range(0, len(want), k):
+                                os.write(w, want[i:i + k])
+                            os.close(w)
+                        th = threading.Thread(target=feed)
+                        th.start()
+                        c = fdpexpect.fdspawn(r, maxread=maxread, timeout=60)
+                    else:
+                        a, b = socket.socketpair()
+                        th = threading.Thread(target=lambda b=b, want=want: (b.sendall(want), b.close()))
+                        th.start()
+                        c = socket_pexpect.SocketSpawn(a, maxread=maxread, timeout=60)
+                    if wait_first:
+                        import time
+                        time.sleep(0.3)
+                    got = b''
+                    for _ in range(calls):
+                        i = c.expect_exact([b'XYZ-_0', pexpect.EOF])
+                        got += c.before + (c.after if i == 0 else b'')
+                        if i == 1:
+                            break
+                    else:
+                        c.expect(pexpect.EOF)
+                        got += c.before
+                    if th:
+                        th.join()
+                    if transport == 'popen':
+                        c.wait()
+                    else:
+                        c.close()
+                except Exception as e:
+                    ctx.hit('C01/real-' + transport, '%s transport, %d bytes, maxread %d: %r' % (transport, n, maxread, e), {'n': n, 'maxread': maxread, 'piece': k})
+                    return
+                tried += 1
+                if got != want:
+                    j = next((x for x in range(min(len(got), len(want))) if got[x] != want[x]), min(len(got), len(want)))
+                    ctx.hit('C01/real-' + transport, '%s transport: the peer wrote %d bytes in pieces of %d; %d expect_exact calls + expect(EOF) (maxread %d) handed back %d bytes; first difference at offset %d'
+                            % (transport, n, k, calls, maxread, len(got), j), {'transport': transport, 'n': n, 'piece': k, 'maxread': maxread, 'calls': calls, 'wait_first': wait_first})
+                    return
+    ctx.oracle_stats['real_transport_streams'] = tried
